@@ -62,7 +62,10 @@ def run(tier):
                     cases.append({'argv': ['lbzip2', '-d'] + args, 'env': fit(env), 'stdin': m})
                     meta.append((name, fname, k, args, fit(env), m))
         if len(fields) >= 2:
-            pick = [fields[0], fields[len(fields) // 2], fields[-1]]
+            # first and last block CRC, the middle field, and every stream CRC (a stream CRC that is followed by
+            # another stream is checked while workers may already be busy with blocks of that next stream)
+            pick = [fields[0], fields[len(fields) // 2], fields[-1]] + [f for f in fields if f[0].endswith('.crc') and '.block' not in f[0]]
+            pick = list(dict.fromkeys(pick))
             explore_targets.append((name, data, pick))
     res = lbzx.batch('fast', cases, timeout=120)
     distinct = set()
@@ -93,13 +96,17 @@ def run(tier):
         if c['stderr_len'] == 0:
             return 'no diagnostic'
         return None
-    for name, data, pick in explore_targets[: (3 if quick else 6)]:
+    # multi-stream files first: they have stream CRCs that are followed by more blocks
+    explore_targets.sort(key=lambda t: (sum(1 for f in t[2] if '.block' not in f[0]) < 2, len(t[1])))
+    for name, data, pick in explore_targets[: (3 if quick else 7)]:
         for fname, start in pick:
             m = bzgen.flip(data, start + 7)
             for W in (2, 3):
-                ex.add('schedules', 'fast', ['-n%d' % W, '-d'], m, orc, '%s %s bit7 W=%d' % (name, fname, W),
-                       {'setenv': {'LBZIP2_VERIF_IN_GRANUL': str(max(64, len(data) // 200 // 4 * 4))}})
+                for ig in ((16, 64) if len(data) < 2000 else (64,)):
+                    ex.add('schedules', 'fast', ['-n%d' % W, '-d'], m, orc, '%s %s bit7 W=%d in_granul=%d' % (name, fname, W, max(ig, len(data) // 200 // 4 * 4)),
+                           {'setenv': {'LBZIP2_VERIF_IN_GRANUL': str(max(ig, len(data) // 200 // 4 * 4))}})
     done = 0
+    ex.run_priorities(lambda c: int(c.args[0][2:]) + 3, cells=[c for c in ex.cells if c.args[0] == '-n2'])
     for d in range(1, (1 if quick else 2) + 1):
         if not ex.run_pass(d):
             break
